@@ -330,11 +330,20 @@ func (w *World) AimAmount(bal uint64, label string) uint64 {
 
 // Transfer builds a signed single-transaction transfer entry.
 func (w *World) Transfer(from Actor, asset int, amt uint64, to []Actor) Entry {
+	var fa []string
+	for _, a := range to {
+		fa = append(fa, a.FA())
+	}
+	return w.TransferTo(from, asset, amt, fa)
+}
+
+// TransferTo is Transfer with recipients given as FA strings.
+func (w *World) TransferTo(from Actor, asset int, amt uint64, to []string) Entry {
 	h := w.H()
 	outs := splitAmount(w.T, amt, len(to))
 	tx := Tx{From: from.FA(), Asset: Tickers[asset-1], Amt: amt}
 	for i, a := range to {
-		tx.Outs = append(tx.Outs, Xfer{To: a.FA(), Amt: outs[i]})
+		tx.Outs = append(tx.Outs, Xfer{To: a, Amt: outs[i]})
 	}
 	w.seq++
 	return FATEntry(h, w.nextMinute(), w.saltOff(), from, []Tx{tx})
@@ -400,6 +409,23 @@ func (w *World) PickHolding(label string) (Holding, bool) {
 
 func (w *World) PickActor(label string) Actor {
 	return w.Actors[rapid.IntRange(0, len(w.Actors)-1).Draw(w.T, label)]
+}
+
+// PickRecipient draws a transfer recipient: mostly an actor, sometimes the burn
+// address of either era or the mint address.
+func (w *World) PickRecipient(label string) string {
+	switch rapid.IntRange(0, 11).Draw(w.T, label+"Kind") {
+	case 0:
+		w.Tag("to-burn-address")
+		return GlobalBurnAddress
+	case 1:
+		w.Tag("to-old-burn-address")
+		return GlobalOldBurnAddress
+	case 2:
+		return GlobalMintAddress
+	default:
+		return w.PickActor(label).FA()
+	}
 }
 
 // ConvertibleDest draws a destination asset that the rules at height h allow
